@@ -114,3 +114,56 @@ theorem validName_no_nl (name : Bytes) (h : isValidName name = true) : B.nl ∉ 
   simp [Utf8.isSpace] at this
 
 end Note
+
+namespace Utf8
+
+theorem decodeRune_sp (r : Bytes) : decodeRune (B.sp :: r) = (32, 1) := by
+  unfold decodeRune; simp [B.sp]
+
+/-- if a byte string contains 0x20 then one of its runes is U+0020 -/
+theorem sp_rune : ∀ (n : Nat) (s : Bytes), s.length ≤ n → B.sp ∈ s → (32, 1) ∈ runes s := by
+  intro n
+  induction n with
+  | zero => intro s hl hm; cases s <;> simp_all
+  | succ n ih =>
+    intro s hl hm
+    cases s with
+    | nil => simp at hm
+    | cons b r =>
+      rw [runes]
+      by_cases hb : b = B.sp
+      · subst hb; rw [decodeRune_sp]; simp
+      · have hmr : B.sp ∈ r := by
+          rcases List.mem_cons.1 hm with h | h
+          · exact absurd h.symm hb
+          · exact h
+        apply List.mem_cons_of_mem
+        have hpos := decodeRune_size_pos b r
+        apply ih
+        · simp only [List.length_drop, List.length_cons] at hl ⊢; omega
+        · have hsplit : r = r.take ((decodeRune (b :: r)).2 - 1) ++ r.drop ((decodeRune (b :: r)).2 - 1) :=
+            (List.take_append_drop _ _).symm
+          have hdrop : (b :: r).drop (decodeRune (b :: r)).2 = r.drop ((decodeRune (b :: r)).2 - 1) := by
+            cases hk : (decodeRune (b :: r)).2 with
+            | zero => omega
+            | succ k => simp
+          rw [hdrop]
+          rw [hsplit] at hmr
+          rcases List.mem_append.1 hmr with h | h
+          · have := decodeRune_tail_high b r B.sp h
+            simp [B.sp] at this
+          · exact h
+
+end Utf8
+
+namespace Note
+
+theorem validName_no_sp (name : Bytes) (h : isValidName name = true) : B.sp ∉ name := by
+  intro hm
+  have hr := Utf8.sp_rune name.length name (Nat.le_refl _) hm
+  unfold isValidName at h
+  simp only [Bool.and_eq_true, Bool.not_eq_true', List.any_eq_false] at h
+  have := h.1.2 (32, 1) hr
+  simp [Utf8.isSpace] at this
+
+end Note
